@@ -1035,11 +1035,104 @@ def quoter(ctx):
            "quote_csv_cell copies bytes that did not pass through the CSV writer (%s): quotes in "
            "a surface stay unescaped and the following columns are swallowed when the file is "
            "read back" % "; ".join(bad))
+    # the input advances by the consumed count, the output is cut at the produced count
+    fields = [(b, t) for b, t in fa.calls()
+              if any(strip_generics(x).endswith("Writer::field") for x in callee_paths(t))]
+    if len(fields) == 1:
+        fb_, ft_ = fields[0]
+        res = ft_["dest"]["l"]
+        inbuf = buffer_var(fa, ft_["args"][1])
+        adv = []
+        wrong = []
+        for b, t in fa.calls():
+            if (callee_of(t) or {}).get("name") == "index" and len(t["args"]) > 1 and \
+                    buffer_var(fa, t["args"][0]) == inbuf:
+                r = _range_bound(fa, t["args"][1], "RangeFrom")
+                if r is None:
+                    continue
+                k = _tuple_field(fa, r, res)
+                (adv if k == 1 else wrong).append(b)
+        after = ft_.get("t")
+        okadv = bool(adv) and not wrong and fb_ not in fa.reachable(after, avoid=set(adv))
+        ctx.ob("QUOTER", "%s|input-advances-by-consumed-count" % p, okadv, fa.loc(fb_),
+               "before every further Writer::field call the input is advanced by nin, the number of "
+               "input bytes that call consumed" if okadv else
+               "quote_csv_cell does not advance its input by the consumed count `nin` before calling "
+               "Writer::field again (e.g. by the produced count `nout`): when quoting changes the "
+               "length, bytes of a cell longer than the buffer are skipped or repeated")
+        okcut = True
+        for b, t in fa.calls():
+            ps = [strip_generics(x) for x in callee_paths(t)]
+            if any(x.endswith("Write::write_all") for x in ps) and buffer_var(fa, t["args"][1]) in bufs:
+                pl = op_place(t["args"][1])
+                bound = None
+                for _ in range(10):
+                    if pl is None:
+                        break
+                    d = fa.single_def(pl["l"])
+                    if d is None:
+                        break
+                    if d[2] == "call":
+                        if (callee_of(d[3]) or {}).get("name") in ("index", "index_mut") and len(d[3]["args"]) > 1:
+                            bound = _range_bound(fa, d[3]["args"][1], "RangeTo")
+                            break
+                        pl = op_place(d[3]["args"][0]) if d[3]["args"] else None
+                        continue
+                    rv = d[3]
+                    pl = op_place(rv["op"]) if rv["k"] in ("use", "cast") else rv.get("place") if rv["k"] == "ref" else None
+                if bound is None:
+                    okcut = False
+                    continue
+                # the bound is the produced count of the csv-core call that dominates this write
+                kf = _tuple_field(fa, bound, res)
+                fin_res = [fa.term(x)["dest"]["l"] for x in fin]
+                kfin = [_tuple_field(fa, bound, r0) for r0 in fin_res]
+                if not (kf == 2 or 1 in kfin):
+                    okcut = False
+        ctx.ob("QUOTER", "%s|output-cut-at-produced-count" % p, okcut, fa.loc(fb_),
+               "every write emits output[..nout] with nout the count its csv-core call produced" if okcut else
+               "a write in quote_csv_cell is not cut at the produced count of its csv-core call")
     ok_b, err_b, _ = result_exits(fa)
     okf = bool(fin) and all(any(fa.dominates(fb, o) for fb in fin) for o in ok_b)
     ctx.ob("QUOTER", "%s|finish-before-ok" % p, okf, "%s:%s" % (f.file, f.line),
            "every successful return of quote_csv_cell has called Writer::finish" if okf else
            "quote_csv_cell can return Ok without Writer::finish (a quoted cell is left open)")
+
+
+def _tuple_field(fa, op, res):
+    """which component of the tuple in local `res` an operand copies, else None"""
+    pl = op_place(op)
+    for _ in range(8):
+        if pl is None:
+            return None
+        if pl["l"] == res:
+            fs = [e["f"] for e in pl["p"] if e != "*" and "f" in e and e.get("o") == "(tuple)"]
+            return fs[0] if fs else None
+        if pl["p"]:
+            return None
+        d = fa.single_def(pl["l"])
+        if d is None or d[2] != "assign" or d[3]["k"] not in ("use", "cast"):
+            return None
+        pl = op_place(d[3]["op"])
+    return None
+
+
+def _range_bound(fa, op, adt_suffix):
+    """the bound operand of the RangeTo / RangeFrom aggregate an operand copies, else None"""
+    pl = op_place(op)
+    for _ in range(6):
+        if pl is None or pl["p"]:
+            return None
+        d = fa.single_def(pl["l"])
+        if d is None or d[2] != "assign":
+            return None
+        rv = d[3]
+        if rv["k"] == "agg" and str(rv.get("adt", "")).endswith(adt_suffix):
+            return rv["ops"][0]
+        if rv["k"] != "use":
+            return None
+        pl = op_place(rv["op"])
+    return None
 
 
 def buffer_var(fa, op):
@@ -1082,6 +1175,7 @@ def run_c14(ctx):
 def run_c16(ctx):
     bigram_files(ctx)
     matrix_rows(ctx)
+    quoter(ctx)       # the cells of bigram.left / bigram.right are written through quote_csv_cell
 
 
 def run_c19(ctx):
